@@ -187,7 +187,9 @@ func (s SchedCase) ConfigT(maxSteps, total int) sched.Config {
 		PCTChanges: s.PCT, MaxSteps: maxSteps,
 		// a goroutine that loops without ever reaching a communication point never comes back to the scheduler: the logical loop
 		// budget (one tick per iteration of every loop of the reader packages) ends it with a verdict instead of a real hang
-		MaxTicks: 20_000_000}
+		MaxTicks: 20_000_000,
+		// iteration order of the maps of the code under test: part of the schedule (C18 draws it separately)
+		MapSeed: uint64(s.Seed)*2654435761 + uint64(s.SiteSalt) + 1, HasMapSeed: true}
 }
 
 // sequential schedule used for reference runs
